@@ -19,9 +19,12 @@ type Job struct {
 	Seed     uint64 `json:"seed"`
 	Replay   bool   `json:"replay"`
 	Trace    []int  `json:"trace,omitempty"`
-	Tier     string `json:"tier"`
-	Verbose  bool   `json:"verbose"`
-	Out      string `json:"out"`
+	// PrefixN: ranges of the draws the parent already made on this stream
+	// (e.g. the part selection of a Multi harness); the child repeats them first
+	PrefixN []int  `json:"prefix_n,omitempty"`
+	Tier    string `json:"tier"`
+	Verbose bool   `json:"verbose"`
+	Out     string `json:"out"`
 }
 
 // JobResult is what the child writes back.
@@ -40,6 +43,7 @@ type External struct {
 	Ver         string
 	M           Meta
 	Quick, Thor int
+	ChildKey    string // registry key in the child (defaults to Property)
 	Bin         string // path of the test binary, relative to the dsim directory
 	TestName    string
 	// Classify turns a child that died without a result into a verdict.
@@ -48,6 +52,14 @@ type External struct {
 
 // ID implements Harness.
 func (e External) ID() string { return e.Property }
+
+// JobProperty is the key of the child's registry entry.
+func (e External) JobProperty() string {
+	if e.ChildKey != "" {
+		return e.ChildKey
+	}
+	return e.Property
+}
 
 // Version implements Harness.
 func (e External) Version() string { return e.Ver }
@@ -70,7 +82,7 @@ func (e External) Run(ch *choice.Source, opt Options) Result {
 		return Result{HarnessBug: err.Error()}
 	}
 	defer os.RemoveAll(dir)
-	job := Job{Property: e.Property, Seed: ch.Seed(), Replay: ch.IsReplay(), Trace: ch.Input(), Tier: opt.Tier, Verbose: opt.Verbose, Out: filepath.Join(dir, "result.json")}
+	job := Job{Property: e.JobProperty(), Seed: ch.Seed(), Replay: ch.IsReplay(), Trace: ch.Input(), PrefixN: append([]int{}, ch.Ns()...), Tier: opt.Tier, Verbose: opt.Verbose, Out: filepath.Join(dir, "result.json")}
 	jb, _ := json.Marshal(job)
 	jobPath := filepath.Join(dir, "job.json")
 	if err := os.WriteFile(jobPath, jb, 0o644); err != nil {
